@@ -31,6 +31,8 @@ structure CopyWorld where
   /-- handle ↦ version stamp; a mutation gives the handle a fresh stamp, a copy inherits the stamp -/
   handles : List (String × Nat) := []
   next : Nat := 1
+  /-- stamp of the value the kept-aside block of a `chain` handle was built for -/
+  pristine : Nat := 0
 
 structure St where
   key : String := ""
@@ -110,6 +112,11 @@ def elemSize (getter : String) : Option (String × Nat × Bool) :=   -- field, e
   | "RandaoMixes" => some ("randao_mixes", 32, true)
   | "Slashings" => some ("slashings", 8, true)
   | "Balances" => some ("balances", 8, false)
+  | "InactivityScores" => some ("inactivity_scores", 8, false)
+  | "PreviousEpochParticipation" => some ("previous_epoch_participation", 1, false)
+  | "CurrentEpochParticipation" => some ("current_epoch_participation", 1, false)
+  | "HistoricalRoots" => some ("historical_roots", 32, false)
+  | "Eth1DataVotes" => some ("eth1_data_votes", 72, false)
   | _ => none
 
 def validatorSizes : List Nat := [48, 32, 8, 1, 8, 8, 8, 8]
@@ -134,17 +141,25 @@ def copyStep (w : CopyWorld) (toks : List String) : Option (CopyWorld × String)
   let has (h : String) := w.handles.any (·.1 == h)
   match toks with
   | ["live", h, _fork, _seed] =>
-    some ({ handles := (w.handles.filter (·.1 != h)) ++ [(h, w.next)], next := w.next + 1 }, "ok")
+    some ({ w with handles := (w.handles.filter (·.1 != h)) ++ [(h, w.next)], next := w.next + 1 }, "ok")
+  | ["chain", h, _cfg, _n, _policy, _seed, _warm] =>
+    some ({ handles := (w.handles.filter (·.1 != h)) ++ [(h, w.next)], next := w.next + 1, pristine := w.next }, "ok")
   | ["copy", a, b] =>
     match w.handles.find? (·.1 == a) with
     | some (_, s) =>
       if a == b then some (w, "bad-op") else
       some ({ w with handles := (w.handles.filter (·.1 != b)) ++ [(b, s)] }, "ok same-as=" ++ a)
     | none => some (w, "bad-op")
-  | "mut" :: h :: _ =>
+  | "mut" :: h :: rest =>
     if has h then
-      some ({ handles := w.handles.map (fun x => if x.1 == h then (h, w.next) else x), next := w.next + 1 },
-            "ok unchanged=" ++ ",".intercalate (others h))
+      -- a valid block (the chain's own next block, or a still-valid variant of it) is accepted exactly by the
+      -- value it was built for: any earlier change of that handle changes the state root the block commits to
+      let verdict := match rest with
+        | ["block"] | ["mutantvalid", _] =>
+          if (w.handles.find? (·.1 == h)).map (·.2) == some w.pristine then " applied" else " refused"
+        | _ => ""
+      some ({ w with handles := w.handles.map (fun x => if x.1 == h then (h, w.next) else x), next := w.next + 1 },
+            "ok unchanged=" ++ ",".intercalate (others h) ++ verdict)
     else some (w, "bad-op")
   | ["same", a, b] =>
     match w.handles.find? (·.1 == a), w.handles.find? (·.1 == b) with
@@ -272,13 +287,27 @@ def c15Step (s : St) (line : String) : St × String :=
             ("err", s.fields)
           else
           let n := b.size / sz
+          -- whole-list operations of the list sub-views
+          if m == "Append" || m == "AppendBalance" then
+            match args with
+            | [h] => match parseHex h with
+              | some nb => if nb.size != sz then ("bad-op", s.fields) else
+                  let fs' := setField s.fields f (b ++ nb); (diffStr s.fields fs', fs')
+              | none => ("bad-op", s.fields)
+            | _ => ("bad-op", s.fields)
+          else if m == "Reset" then
+            (if args.isEmpty then let fs' := setField s.fields f ByteArray.empty; (diffStr s.fields fs', fs') else ("bad-op", s.fields))
+          else if m == "Length" then
+            (if args.isEmpty then ("ok " ++ toHex (le64 n), s.fields) else ("bad-op", s.fields))
+          else
           if n == 0 then ("err", s.fields) else
           let j := if modulo then i % n else i
           if j ≥ n then ("err", s.fields) else
           let cur := b.extract (j * sz) (j * sz + sz)
           match m, args with
-          | "GetRoot", [] | "GetRandomMix", [] | "GetBalance", [] | "GetSlashingsValue", [] => ("ok " ++ toHex cur, s.fields)
-          | "SetRoot", [h] | "SetRandomMix", [h] | "SetBalance", [h] =>
+          | "GetRoot", [] | "GetRandomMix", [] | "GetBalance", [] | "GetSlashingsValue", [] | "GetScore", [] | "GetFlags", [] =>
+            ("ok " ++ toHex cur, s.fields)
+          | "SetRoot", [h] | "SetRandomMix", [h] | "SetBalance", [h] | "SetScore", [h] | "SetFlags", [h] =>
             match parseHex h with
             | some nb => if nb.size != sz then ("bad-op", s.fields) else
                 let fs' := setField s.fields f (splice b (j * sz) nb); (diffStr s.fields fs', fs')
